@@ -669,6 +669,7 @@ fn judge_c08(
 }
 
 pub fn check_c08(case: &ByteCase, rep: &mut Report) {
+    crate::report::journal_enter(|| case.to_json());
     rep.evaluations += 1;
     let bytes = case.bytes();
     let flat = flat_oracle(&bytes, case.kind);
